@@ -245,7 +245,7 @@ var invalidations = []invalidation{
 			return false
 		}
 		k.NoteText = []string{"h3", "H3", "e#1", "B#0", "c9", "c-3", "cc3", "", "c3x", " c3", "c 3", "z-2", "g#8", "c#", "3c", "c--1", "do3",
-			"c10", "c20", "c-20", "c-15", "a-10", "c99", "g#19", "d-21", "c020", "c+3"}[r.Intn(27)]
+			"c10", "c20", "c-20", "c-15", "a-10", "c99", "g#19", "d-21", "c020", "c+3", "0x3c", "0X3C", "0b1100", "0o17", "1_0", "6e1", "60.0"}[r.Intn(34)]
 		return true
 	})},
 	{"unknown action", descEdit(func(r *simrt.Rng, d *model.Desc) bool {
@@ -505,6 +505,9 @@ type w4Tree struct {
 	Files      []w4File `json:"files"`
 	MissingDir string   `json:"missing_dir,omitempty"`
 	DirFault   string   `json:"dir_fault,omitempty"` // directory that cannot be read
+	// how: "" = listing it fails with EACCES; "stat-eacces" / "stat-eio" = already its lstat fails (the walk is then
+	// handed an error without a FileInfo, and the error is not "does not exist")
+	DirFaultHow string `json:"dir_fault_how,omitempty"`
 }
 
 func runW4C12(t *testing.T, job *Job, seed uint64, rp *Replay) RunOut {
@@ -553,6 +556,7 @@ func runW4C12(t *testing.T, job *Job, seed uint64, rp *Replay) RunOut {
 			tr.MissingDir = fourDirs[r.Intn(4)]
 		case 2:
 			tr.DirFault = fourDirs[r.Intn(4)]
+			tr.DirFaultHow = []string{"", "", "stat-eacces", "stat-eio"}[r.Intn(4)]
 		}
 	}
 	fsys := newTreeFS()
@@ -620,8 +624,14 @@ func runW4C12(t *testing.T, job *Job, seed uint64, rp *Replay) RunOut {
 		ro.Faults["missing_directory"]++
 	}
 	if tr.DirFault != "" {
-		fsys.Faults = append(fsys.Faults, &simfs.Fault{Path: tr.DirFault, Kinds: []string{"readdir"}, What: "eacces"})
-		ro.Faults["unreadable_directory"]++
+		switch tr.DirFaultHow {
+		case "stat-eacces", "stat-eio":
+			fsys.Faults = append(fsys.Faults, &simfs.Fault{Path: tr.DirFault, Kinds: []string{"stat"}, What: strings.TrimPrefix(tr.DirFaultHow, "stat-")})
+			ro.Faults["directory_lstat_fails"]++
+		default:
+			fsys.Faults = append(fsys.Faults, &simfs.Fault{Path: tr.DirFault, Kinds: []string{"readdir"}, What: "eacces"})
+			ro.Faults["unreadable_directory"]++
+		}
 	}
 	cfgs, err, pv, stack := loadAll(fsys)
 	b, _ := json.Marshal(&tr)
